@@ -75,7 +75,8 @@ _C_STUBS = ["FakeFdStream scripted kernel (harness/_iostream_rig.py); right afte
     nshards=dict(quick=70, thorough=70),
     classify=lambda **a: _classify(h_close_read, a),
     reach=["read_completed_at_close", "read_failed_real_error", "unsatisfiable", "callback_ran",
-           "later_read_from_buffer", "inline_error_raised"],
+           "later_read_from_buffer", "inline_error_raised",
+           "unsat_inline_until", "unsat_inline_regex", "unsat_deferred_until", "unsat_deferred_regex"],
     units=_C_UNITS, stubs=_C_STUBS,
     outside=["more than one pending read (the API forbids it)", "SSL handshake futures",
              "an 'other' OSError met inline while *issuing* a read is re-raised to the caller by read_*() (the "
@@ -88,8 +89,10 @@ def h_close_read(cause: int, rk: int, rn: int, rm: int, b0: int, cb: bool, rscri
     _close_body(cause, rk, rn, rm, b0, 0, -1, cb, False, rscript, tail, later)
 
 
-def pre_cw(cause: int, nw: int, wa: int, cb: bool, conn: bool, pend: bool, tail: int) -> bool:
-    if not (0 <= cause <= 5 and 0 <= nw <= 2 and -1 <= wa <= P.WA and 0 <= tail <= 1):
+def pre_cw(cause: int, nw: int, wa: int, cb: bool, conn: bool, pend: int, defer: bool, tail: int) -> bool:
+    if not (0 <= cause <= 5 and 0 <= nw <= 2 and -1 <= wa <= P.WA and 0 <= tail <= 1 and 0 <= pend <= 3):
+        return False
+    if defer and pend == 0:
         return False
     if conn and cause == WERR:
         return False
@@ -101,17 +104,27 @@ def pre_cw(cause: int, nw: int, wa: int, cb: bool, conn: bool, pend: bool, tail:
     quick=dict(K=1, WA=1, timeout=100, reach_timeout=60),
     thorough=dict(K=1, WA=2, timeout=1500, reach_timeout=120),
     nshards=dict(quick=18, thorough=18),
-    reach=["write_failed", "connect_failed", "callback_ran", "read_failed_real_error"],
+    reach=["write_failed", "connect_failed", "callback_ran", "read_failed_real_error",
+           "unsat_inline_until", "unsat_inline_regex", "unsat_deferred_until", "unsat_deferred_regex",
+           "write_failed_by_unsatisfiable"],
     classify=lambda **a: _classify(h_close_write, a),
     units=_C_UNITS, stubs=_C_STUBS,
     outside=["more than 2 pending writes", "SSL handshake futures", "close callbacks that raise", "cancelled futures"],
 )
-def h_close_write(cause: int, nw: int, wa: int, cb: bool, conn: bool, pend: bool, tail: int):
-    """0-2 partly sent writes, optional connect-pending, optional pending read_bytes(3) meet the close cause."""
-    if pend:
-        _close_body(cause, RB, 3, -1, 0, nw, wa, cb, conn, [], tail, 1)
+def h_close_write(cause: int, nw: int, wa: int, cb: bool, conn: bool, pend: int, defer: bool, tail: int):
+    """0-2 partly sent writes, optional connect-pending and an optional read - read_bytes(3), or
+    read_until / read_until_regex with max_bytes=0 whose limit trips as soon as one unmatched byte is
+    readable: inline inside the call (the byte is already readable) or deferred (it arrives with a later
+    READ event) - meet the close cause."""
+    rs = [0] if defer else []          # deferred: the first read_from_fd would-blocks, data comes by event
+    if pend == 1:
+        _close_body(cause, RB, 3, -1, 0, nw, wa, cb, conn, rs, tail, 1)
+    elif pend == 2:
+        _close_body(cause, RU, 0, 0, 0, nw, wa, cb, conn, rs, tail, 1)
+    elif pend == 3:
+        _close_body(cause, RX, 0, 0, 0, nw, wa, cb, conn, rs, tail, 1)
     else:
-        _close_body(cause, -1, 0, -1, 0, nw, wa, cb, conn, [], tail, 1)
+        _close_body(cause, -1, 0, -1, 0, nw, wa, cb, conn, rs, tail, 1)
 
 
 def _close_body(cause, rk, rn, rm, b0, nw, wa, cb, conn, rscript, tail, later):
@@ -179,17 +192,21 @@ def _close_body(cause, rk, rn, rm, b0, nw, wa, cb, conn, rscript, tail, later):
                 assert e is k.injected and cause == EIO, "read raised %r" % (e,)
                 reached("inline_error_raised")
             env.run_ready()
+        closed_inline = s.closed()         # the stream closed inside write() / the read call itself
         # ---- deliver events until the cause has happened
         guard = 0
+        local_closed = False
         while not s.closed() and guard < P.K + 4:
             guard += 1
             if cause == LOCAL:
                 if guard > len(rscript) or not registered(env, IOLoop.READ):
+                    local_closed = True
                     s.close()
                 else:
                     fire(env, IOLoop.READ)
             elif cause == ERREV:
                 if env.loop.handlers.get(FD) is None:
+                    local_closed = True
                     s.close()
                 else:
                     k.fd_error = OSError(111, "connection refused (injected)")
@@ -199,27 +216,39 @@ def _close_body(cause, rk, rn, rm, b0, nw, wa, cb, conn, rscript, tail, later):
                 if registered(env, IOLoop.WRITE):
                     fire(env, IOLoop.WRITE)
                 else:
+                    local_closed = True
                     s.close()
             else:
                 if registered(env, IOLoop.READ):
                     fire(env, IOLoop.READ | (IOLoop.WRITE if registered(env, IOLoop.WRITE) else 0))
                 else:
+                    local_closed = True
                     s.close()
             env.run_ready()
         env.run_ready()
         assert s.closed(), "stream did not close"
         D = k.rpos
-        # ---- the real error every failure must carry
-        if isinstance(s.error, iostream.UnsatisfiableReadError):
-            reached("unsatisfiable")
-            assert rk in (RU, RX) and rm >= 0
+        # ---- the real error every failure must carry.  The expectation comes from what the HARNESS did, never
+        # from stream.error: if no external cause happened (no local close(), no EOF / error reported by the
+        # kernel, no ERROR event) the only thing that can have closed the stream is the read's own max_bytes
+        # limit, and then stream.error and every real_error must BE that UnsatisfiableReadError.
+        external = local_closed or k.injected is not None or (kcause == EOF and k.end_seen > 0)
+        if not external:
+            assert rk in (RU, RX) and rm >= 0, "stream closed without any cause (error=%r)" % (s.error,)
             e = END[rk == RX][rn][rpos]
             assert e is None or e - rpos > rm, "refused although the delimiter is within max_bytes"
+            assert isinstance(s.error, iostream.UnsatisfiableReadError), \
+                "stream closed by the max_bytes limit of the read but stream.error is %r" % (s.error,)
             want_err = s.error
-        elif k.injected is not None:
-            want_err = k.injected
+            reached("unsatisfiable")
+            if closed_inline:
+                reached("unsat_inline_until" if rk == RU else "unsat_inline_regex")
+            else:
+                reached("unsat_deferred_until" if rk == RU else "unsat_deferred_regex")
+            if nw > 0 and len(k.sent) < 2 * nw:
+                reached("write_failed_by_unsatisfiable")
         else:
-            want_err = None
+            want_err = k.injected
         assert s.error is want_err, "stream.error is %r, injected %r" % (s.error, want_err)
         # ---- every future settled exactly once
         sent = len(k.sent)
